@@ -23,7 +23,7 @@ func raceRelevant(a symex.AccessRec) bool {
 		return true
 	case strings.HasPrefix(t, "map[string]*") && strings.Contains(t, "/protocol."):
 		return true
-	case strings.Contains(t, "/protocol.vpTransport.out"):
+	case strings.Contains(t, "/protocol.vpTransport.out"), strings.Contains(t, "/transport.vpWriter"):
 		return true // stands for the client connection's single-writer contract (gorilla/websocket, hijacked conn)
 	case strings.HasPrefix(a.Tag, "global:") && strings.Contains(a.Tag, "/protocol.") && !strings.Contains(a.Tag, ".vp"):
 		return true
@@ -49,9 +49,16 @@ func happensBefore(a, b symex.AccessRec, spawns map[string]symex.SpawnInfo) bool
 }
 
 func commonLock(a, b symex.AccessRec) bool {
+	// negative keys are locks held in shared mode (RLock): two readers of an RWMutex do not exclude each other
+	abs := func(v int) int {
+		if v < 0 {
+			return -v
+		}
+		return v
+	}
 	for _, x := range a.Locks {
 		for _, y := range b.Locks {
-			if x == y {
+			if abs(x) == abs(y) && !(x < 0 && y < 0) {
 				return true
 			}
 		}
